@@ -19,15 +19,15 @@ def check(run, tier, seed, replay=None):
         "are never written); controllerOf as stored in status (nil and [] are told apart only where a third party stored [])",
         "API-server semantics of the harness's recording server (resourceVersion conflicts, finalizer-delayed deletion, no-op writes); "
         "condition messages / transition times not compared",
-        "the handover clause is judged on passes of the real ObjectSet controller for unsliced outgoing revisions",
+        "the handover clause is judged on passes of the real ObjectSet controller for unsliced outgoing revisions, atomic or with the "
+        "incoming revision's pass run between the outgoing teardown's read and delete (Store.WriteHook); the interleaved pass is not modelled",
     ]
     vlib.std_proof_stage(run, "C08")
     ok, blog = vlib.build_harness()
     if not ok:
         run.violation("corr:harness-build", {"correspondence": "harness no longer builds against the tree", "log": blog[-4000:]}, False)
         return
-    if not dc.detect_variants(run):
-        return
+    dc.note_shapes(run)
     if replay:
         d = json.load(open(replay))["replay"]
         ctx = dl.Ctx(d["scenario"]["alphabet"], cluster=d["scenario"]["dep"]["kind"] == 6)
@@ -60,7 +60,7 @@ def check(run, tier, seed, replay=None):
             run.violation(ident, {"scenario": dl.slim(sc), "impl": dc.slim_obs(obs), "monitor": name}, True)
         if not agree and not concrete:
             run.violation("corr:C08/deployment model and implementation differ",
-                          {"correspondence": "DeployCorr.agree (%s)" % run.cov.get("implementation_model"), "scenario": dl.slim(sc),
+                          {"correspondence": "DeployCorr.agree", "scenario": dl.slim(sc),
                            "impl": dc.slim_obs(obs)}, False)
     run.cov["evaluations"] = len(res)
     run.cov["kernel_rows"] = nk
